@@ -918,7 +918,9 @@ fn documented_iteration(d: &Dense, weighted: bool, tol: f64, max_steps: usize) -
         let err: f64 = x.iter().zip(last.iter()).map(|(a, b)| (a - b).abs()).sum();
         errs.push(err);
         let thr = n as f64 * tol;
-        if (err - thr).abs() <= 1e-6 * thr {
+        // the criterion is ambiguous when the change is within rounding noise of the threshold:
+        // the L1 sum of n differences of numbers <= 1 carries an absolute error of a few n*eps
+        if (err - thr).abs() <= 1e-6 * thr + 64.0 * n as f64 * f64::EPSILON {
             ambiguous = true;
         }
         if err < thr {
